@@ -579,6 +579,19 @@ WsdlCases ==
                     items |-> << Imp("Ufar", "far.xsd") >>],
                    Xsd("far.xsd", "Ufar", << <<"tns", "Ufar">> >>,
                        << ElemI("GetItem", << El("farArg", B("string"), 1, "1") >>), ElemI("GetItemResponse", << El("farResult", B("int"), 1, "1") >>) >>) >>,
+   \* two inline schemas that declare a type of the SAME name (different members); in the second one a type extends its
+   \* own namespace's OtherType BEFORE that type is declared: the base is the component of that name IN THAT NAMESPACE,
+   \* not the first one of that name in the file (D46)
+   two_inline_homonym |-> << Wsdl(<< ElemI("GetItem", << El("itemId", B("string"), 1, "1") >>),
+                             ElemI("GetItemResponse", << El("itemName", B("string"), 1, "1") >>),
+                             Cx("OtherType", None, << El("otherValue", B("string"), 1, "1") >>, <<>>) >>,
+                          << <<"ty", "Uthird">> >>,
+                  Common(<< [n |-> "GetItem", action |-> "act", input |-> [msg |-> "request", parts |-> "parameters", headers |-> <<>>],
+                             output |-> [msg |-> "response", parts |-> "parameters", headers |-> <<>>]] >>,
+                         << Msg("request", << Part("parameters", "tns", "GetItem") >>), Msg("response", << Part("parameters", "tns", "GetItemResponse") >>) >>)),
+                   [name |-> "svc.wsdl#2", kind |-> "inline", parent |-> "svc.wsdl", tns |-> "Uthird", xmlns |-> << <<"ty", "Uthird">> >>,
+                    items |-> << Cx("LeafType", T("ty", "OtherType"), << El("leafItem", B("string"), 1, "1") >>, <<>>),
+                                 Cx("OtherType", None, << El("farValue", B("int"), 1, "1"), El("farCode", B("string"), 0, "1") >>, <<>>) >>] >>,
    \* body and header elements of one message in different namespaces, and the response in a namespace the request never uses
    mixed_ns |-> << Wsdl(<< Imp("Ufar", "far.xsd"), ElemI("GetItem", << El("itemId", B("string"), 1, "1") >>),
                            ElemI("AuthHeader", << El("token", B("string"), 1, "1") >>) >>, << <<"o", "Ufar">> >>,
